@@ -24,6 +24,7 @@ EXPLANATION += " R20.16: in the anchored modules and the shared text utilities n
 EXPLANATION += " R20.18: every while loop that steps an index forward through a text compares the index with the length in its test."
 EXPLANATION += " R20.19: in the word finder an offset clamped to len(self.code) is never handed to a method that reads self.code at that offset."
 EXPLANATION += " R20.20: in the repair of an incomplete line the `pass` placeholder keeps the statement's own indentation or goes one level inside the header above it."
+EXPLANATION += " R20.22: in FixSyntax an offset into the typed code reaches a table of the repaired module only through transferred_offset."
 EXPLANATION += " R20.21: a line number obtained by counting line breaks is incremented by one before it is handed to a function that takes line numbers."
 ASSUMPTIONS = ["proposal name is the first constructor argument"]
 
@@ -405,6 +406,7 @@ def check(ctx, res) -> None:
     _lm(ctx, res, "R20.16", ('rope.contrib.codeassist', 'rope.contrib.fixsyntax', 'rope.contrib.findit', 'rope.base.worder', 'rope.base.evaluate'))
     _placeholder_keeps_the_depth_rule(ctx, res)
     _line_numbers_are_one_based_rule(ctx, res)
+    _typed_offsets_are_transferred_rule(ctx, res)
     from .common import clamped_offset_rule as _co
 
     _co(ctx, res, "R20.19")
@@ -550,6 +552,15 @@ def _line_numbers_are_one_based_rule(ctx, res) -> None:
                 core = (v.left if not (isinstance(v.left, ast.Constant)) else v.right) if isinstance(v, ast.BinOp) and isinstance(v.op, ast.Add) else v
                 if isinstance(core, ast.Call) and call_name(core) == "count" and core.args and isinstance(core.args[0], ast.Constant) and core.args[0].value == "\n":
                     counted[x.targets[0].id] = (x, plus_one)
+        # a line number read from a line table (`<lines>.get_line_number(offset)`) counts from one by construction: an instance that holds
+        from_table = {x.targets[0].id for x in ast.walk(f.node) if isinstance(x, ast.Assign) and len(x.targets) == 1 and isinstance(x.targets[0], ast.Name)
+                      and isinstance(x.value, ast.Call) and call_name(x.value) == "get_line_number"}
+        if f.unit.modname == "rope.contrib.fixsyntax":
+            for c in ast.walk(f.node):
+                if isinstance(c, ast.Call) and call_name(c) in SINKS and c.args and isinstance(c.args[0], ast.Name) and c.args[0].id in from_table - set(counted):
+                    n += 1
+                    res.add("R20.21", f"{f.qualname.split('.', 2)[-1]}|line-number-from-a-line-table#{n}", True, f"{f.unit.rel}:{c.lineno}",
+                            "the line number is read from a line table (counted from one)", function=f.qualname)
         if not counted:
             continue
         for c in ast.walk(f.node):
@@ -561,3 +572,55 @@ def _line_numbers_are_one_based_rule(ctx, res) -> None:
                         f"`{ast.unparse(st)}` is the zero-based index of the line and `{ast.unparse(c)[:60]}` takes a line NUMBER: the scope of the line above is answered -- with "
                         "`def f(abc): pass` right above an unfinished `print(abc.`, go-to-definition on `abc` shows the parameter of f instead of the module's variable", function=f.qualname)
     res.floor("R20.21", "line numbers obtained by counting line breaks", n, 1)
+
+
+def _typed_offsets_are_transferred_rule(ctx, res) -> None:
+    """R20.22: FixSyntax works with TWO texts: the code as typed (`self.code`) and the repaired code the module is parsed from (broken lines
+    replaced by `pass`, shorter or longer than what was typed).  Offsets handed to its methods are offsets into the TYPED code.  An offset
+    reaches a table of the repaired module -- its line table, its scopes, `eval_location(pymodule, ...)` -- only after
+    `transferred_offset(...)`; what is computed from the typed offset directly is computed on `self.code`.  Used untranslated on the
+    repaired module, an offset behind a replaced line lands on a later line, in another scope."""
+    from . import common
+    idx = ctx.idx
+    cls = idx.need_class("rope.contrib.fixsyntax.FixSyntax")
+    n = 0
+    for m in sorted(cls.methods.values(), key=lambda m: m.name):
+        ps = [p for p in m.call_params() if "offset" in p]
+        if not ps or m.name.startswith("_"):
+            continue
+        node = common.inlined(idx, m)
+        # names that hold the repaired module
+        mods = {t.id for a in ast.walk(node) if isinstance(a, ast.Assign) and isinstance(a.value, ast.Call) and is_self_attr(a.value.func) and a.value.func.attr == "get_pymodule"
+                for t in a.targets if isinstance(t, ast.Name)}
+        if not mods:
+            continue
+        rebound = {t.id for a in ast.walk(node) if isinstance(a, ast.Assign) for t in a.targets if isinstance(t, ast.Name)}
+        typed = {p for p in ps if p not in rebound}
+
+        def root(e):
+            while isinstance(e, (ast.Attribute, ast.Call, ast.Subscript)):
+                e = e.func if isinstance(e, ast.Call) else e.value
+            return e
+
+        k = 0
+        for c in ast.walk(node):
+            if not isinstance(c, ast.Call):
+                continue
+            raw = [a for a in c.args if isinstance(a, ast.Name) and a.id in typed]
+            if not raw:
+                continue
+            r = root(c.func)
+            on_module = (isinstance(r, ast.Name) and r.id in mods) or any(isinstance(a, ast.Name) and a.id in mods for a in c.args)
+            if call_name(c) == "transferred_offset":
+                n += 1
+                k += 1
+                res.add("R20.22", f"FixSyntax.{m.name}|typed-offset-is-transferred#{k}", True, f"{m.unit.rel}:{c.lineno}",
+                        "the typed offset is translated into the repaired code", function=m.qualname)
+            elif on_module:
+                n += 1
+                k += 1
+                res.fail("R20.22", f"FixSyntax.{m.name}|typed-offset-on-the-repaired-module#{k}", f"{m.unit.rel}:{c.lineno}",
+                         f"`{ast.unparse(c)[:70]}` uses an offset into the code AS TYPED with a table of the REPAIRED module: a broken line was replaced by `pass`, so an "
+                         "offset behind column indent+4 of that line lies on a LATER line of the repaired code -- in another function, the parameter of that function is shown as the "
+                         "definition (and get_doc / get_calltip answer for it)", function=m.qualname)
+    res.floor("R20.22", "uses of a typed offset in FixSyntax", n, 1)
